@@ -12,6 +12,17 @@ KEYWORDS = {'int', 'short', 'long', 'float', 'double', 'char', 'typedef', 'struc
             'unsigned', 'signed', 'const', 'void', 'for', 'if', 'do'}
 # in-domain string alphabet: everything printable the format can carry (no double quote, no non-ASCII)
 STRCH = 'abcXYZ019_-+.:;,/()[]<>=!?*&^%$@~|\'`{}# \t\\'
+# words with a meaning elsewhere in the format (or in the implementation) that are nevertheless legal pair keywords
+RESERVED_KEYS = ['enum', 'struct', 'typedef', 'int', 'short', 'long', 'float', 'double', 'char', 'Enum', 'STRUCT', 'unsigned']
+
+
+def pair_key(rng, lo=1, hi=8, p_reserved=0.2):
+    """A pair keyword: an identifier, or (with probability p_reserved) one of RESERVED_KEYS."""
+    if rng.random() < p_reserved:
+        return rng.choice(RESERVED_KEYS)
+    return ident(rng, lo, hi)
+
+
 NUMKINDS = ['i2', 'i4', 'i8', 'f4', 'f8']
 
 
